@@ -17,7 +17,9 @@ case kinds
               inside the SSL object), or the PRNG fragmentation.
   script      scripted SSL engine + scripted wrapped transport (async), lines in the model's own syntax
   syncscript  scripted SSL socket for the blocking transport (`wrap_socket` of a harness context)
-  client      the default context a client constructor builds (ssl=True), and a truncated session through it
+  client      the default context a client constructor builds (ssl=True) with ssl_standard_compatible omitted (null) / True /
+              False, and a truncated session through it (no close_notify at all, the server's stream cut before / inside its
+              close_notify): option bit AND behaviour
   closerace   a live TLS session (asynchronous transport) where one task waits in recv()/recv_into(), ANOTHER task calls aclose(),
               and then the peer's stream is cut (at once / inside a record in flight / at an offset of the peer's close_notify
               answer / not at all) — case format and lines in vlib/c09_race.  No model run (oracle only).
@@ -28,6 +30,14 @@ case kinds
   listen      server side THROUGH THE LISTENER: the real AsyncTLSListener over an in-memory listener; the client's stream is cut
               at every offset of its handshake flights (and after), or the handshake stalls / is corrupted / the server shuts
               down meanwhile; the handler given to serve() is the reader — vlib/c09_listen.  No model run (oracle only).
+
+  endpoint    the layers ABOVE the transports — AsyncStreamEndpoint / AsyncStreamReceiverEndpoint / AsyncTCPNetworkClient and the
+              blocking StreamEndpoint / StreamReceiverEndpoint / TCPNetworkClient (ssl=<context> or ssl=True), StreamProtocol
+              (recv path) and BufferedStreamProtocol (recv_into path) — over the real TLS transports with the peer's stream cut
+              at an offset, the reader READING AGAIN 2..4 times after its first terminal result: recv_packet() again, a second
+              task / thread taking over, two readers at once, iter_received_packets() restarted; every report is compared with
+              the clean end-of-stream report of a control session (close_notify delivered) — vlib/c09_endpoint.  No model run
+              (oracle only).
 
 real lines (cut)   hs ok|exc:<Class> ; r data <n> | r eof | r exc:<Class> | r late-data <n> (first terminal result, then two more calls) ;
                    plain <hex> ; close … ; inner-closed <0|1> ; peer … ; marks …
@@ -101,13 +111,22 @@ RULE = (
     "after 0..6 loop turns or never); scripted engines whose unwrap() writes the alert and then raises each SSL error class; "
     "listener cases (server side through the real AsyncTLSListener over an in-memory listener, oracle only): every offset of "
     "the client's handshake flights (quick: of one TLS version, a structured third of the other), structured offsets after "
-    "the handshake, stalled / corrupted handshakes, server shut down during the handshake, 2-4 connections on one listener"
+    "the handshake, stalled / corrupted handshakes, server shut down during the handshake, 2-4 connections on one listener; "
+    "endpoint / client layer cases (oracle only): AsyncStreamEndpoint, AsyncStreamReceiverEndpoint, AsyncTCPNetworkClient "
+    "(in-memory transport, virtual time) and StreamEndpoint, StreamReceiverEndpoint, TCPNetworkClient (socketpair / loopback, "
+    "feeder thread) x StreamProtocol (recv) / BufferedStreamProtocol (recv_into) x line / fixed-size packets (records carrying "
+    "0..k complete packets + an incomplete one) x max_recv_size 1..65536: every offset after the handshake of one session per "
+    "layer x path (asynchronous side), structured offsets (record boundaries +-, every close_notify offset, no close_notify at "
+    "all) of the others, x standard_compatible True / omitted / False x the library-built context (ssl=True), the reader reading "
+    "again 2-4 times after the first terminal result (recv_packet again / a second task or thread / two readers at once / "
+    "iter_received_packets restarted); the key is layer x path x offset class x partial-packet-buffered x mode x read pattern"
 )
 
 _aux: dict[str, Any] = {}
 _cache: dict[str, tuple[list[str], dict]] = {}
 _stats: dict[str, Any] = {"laws": [], "trace_problems": [], "ignore_eof": {}, "classes": {}, "lens_mismatch": 0, "outside_alphabet": 0,
-                          "race": {}, "race_first": {}, "unread": {}, "sendrace": {}, "listen": {}}
+                          "race": {}, "race_first": {}, "unread": {}, "sendrace": {}, "listen": {}, "endpoint": {},
+                          "endpoint_clean": {}, "endpoint_trunc": {}}
 
 
 def translate() -> None:
@@ -144,6 +163,9 @@ def _run_once(case: dict) -> tuple[list[str], dict]:
     if k == "listen":
         from vlib import c09_listen as l9
         return l9.run_listen(case)
+    if k == "endpoint":
+        from vlib import c09_endpoint as p9
+        return p9.run_endpoint(case)
     raise core.InfraError(f"unknown case kind {k}")
 
 
@@ -246,6 +268,9 @@ def oracle(case: dict, real: list[str]) -> str | None:
         return _oracle_sendrace(case, real)
     if k == "listen":
         return _oracle_listen(case, real)
+    if k == "endpoint":
+        from vlib import c09_endpoint as p9
+        return p9.oracle(case, real)
     return None
 
 
@@ -824,6 +849,20 @@ def nontrivial(case: dict, real: list[str]) -> str | None:
         key = f"listen/{'+'.join(cl)}/sc={int(bool(case.get('sc', True)))}/eh={case.get('eh', 'custom')}"
         _stats["listen"][key] = _stats["listen"].get(key, 0) + 1
         return key
+    if k == "endpoint":
+        from vlib import c09_endpoint as p9
+        key = p9.class_key(case, real)
+        _stats["endpoint"][key] = _stats["endpoint"].get(key, 0) + 1
+        layer = f"{p9.LAYER_NAME[(case.get('tr', 'async'), case['layer'])]}/{case.get('proto', 'stream')}/{'iter' if case.get('how') == 'iter' else 'recv_packet'}"
+        for ln in real:
+            if ln.startswith("ctl "):
+                _stats["endpoint_clean"].setdefault(layer, set()).add(ln[4:])
+        cls = key.split("/")[4]
+        if cls not in ("handshake", "complete", "?"):
+            for ln in real:
+                if ln.startswith("t "):
+                    _stats["endpoint_trunc"].setdefault(f"{layer}/sc={p9._sc_txt(case)}", set()).add(ln[2:])
+        return key
     if k == "closerace":
         c = _race_class(case, real)
         key = f"closerace/{case.get('order', 'parked')}/{c}/sc={int(bool(case.get('sc', True)))}"
@@ -877,6 +916,9 @@ def shrink(case: dict):
                 m = e9.baseline("server", case["tls"], list(c["recs"]), bool(c.get("notify", True)))
                 if c["cut"] < m["hs_end"]:
                     yield {**case, "conns": conns[:i] + [{**c, "recs": []}] + conns[i + 1:]}
+    elif case["kind"] == "endpoint":
+        from vlib import c09_endpoint as p9
+        yield from p9.shrink(case)
     elif case["kind"] == "closesend":
         for k, v in (("senders", 1), ("size", 1), ("delay", 0), ("frag", 0), ("recs", [])):
             if case.get(k, v) != v:
@@ -911,6 +953,9 @@ def known_key(case: dict, real: list[str], why: str) -> str:
         cl = sorted({_listen_class(case, i).split("/")[0] + ("/" + c["fault"] if c.get("fault") else "")
                      for i, c in enumerate(case["conns"])})
         return f"kind=listen,class={'+'.join(cl)},sc={int(bool(case.get('sc', True)))},started={int('handler was started' in why)}"
+    if k == "endpoint":
+        from vlib import c09_endpoint as p9
+        return p9.known_key(case, real, why)
     if k == "script" and "handing" in why:
         return "kind=script,why=alert_not_handed_over"
     if k == "closerace":
@@ -1404,6 +1449,11 @@ def generate(rng, tier: str, boost: int):
     rng.shuffle(races)
     prefetch(races)
     yield from races
+    from vlib import c09_endpoint as p9
+    eps = p9.cases(rng, tier, boost)
+    rng.shuffle(eps)
+    prefetch(eps)
+    yield from eps
     step = 1400
     for i in range(0, len(cuts), step):
         chunk = cuts[i:i + step]
@@ -1423,6 +1473,11 @@ def extra_coverage(stats) -> dict:
         "close_with_unread_data_cases": dict(sorted(_stats["unread"].items())),
         "close_while_send_parked_cases (no model run: oracle only)": dict(sorted(_stats["sendrace"].items())),
         "listener_cases (AsyncTLSListener, no model run: oracle only)": dict(sorted(_stats["listen"].items())),
+        "endpoint_and_client_layer_cases (repeated reads after the cut, no model run: oracle only)": dict(sorted(_stats["endpoint"].items())),
+        "endpoint_clean_end_of_stream_report (control sessions: close_notify delivered)":
+            {k: sorted(v) for k, v in sorted(_stats["endpoint_clean"].items())},
+        "endpoint_reports_after_a_truncation (every terminal result seen, per layer and mode)":
+            {k: sorted(v) for k, v in sorted(_stats["endpoint_trunc"].items())},
         "aclose_flushes_on_ssl_error (generated table)": (tr9._last_info.get("aclose") or {}).get("flushes_on_ssl_error"),
         "exhaustive": "asynchronous transport: every byte offset of the listed sessions x both modes; scripted engines: every class "
                       "of the alphabet x pattern x mode x recv/recv_into",
